@@ -223,6 +223,26 @@ func (s *JavaIdentifierListener) EnterInterfaceMethodDeclaration(ctx *parser.Int
 		Annotations: currentMethod.Annotations,
 		Position:    position,
 	}
+
+	// the modifiers of an interface method stand before the member (public static ...) and, from `default` on, in the
+	// method declaration itself (default public @Nullable ...)
+	if bodyCtx, ok := ctx.GetParent().GetParent().(*parser.InterfaceBodyDeclarationContext); ok {
+		for _, modifier := range bodyCtx.AllModifier() {
+			if !strings.Contains(modifier.GetText(), "@") {
+				currentMethod.Modifiers = append(currentMethod.Modifiers, modifier.GetText())
+			}
+		}
+	}
+	for _, modifier := range ctx.AllInterfaceMethodModifier() {
+		modifierCtx := modifier.(*parser.InterfaceMethodModifierContext)
+		if annotationCtx, ok := modifierCtx.Annotation().(*parser.AnnotationContext); ok {
+			if annotationCtx.QualifiedName() != nil {
+				currentMethod.Annotations = append(currentMethod.Annotations, common_listener.BuildAnnotation(annotationCtx))
+			}
+		} else {
+			currentMethod.Modifiers = append(currentMethod.Modifiers, modifier.GetText())
+		}
+	}
 }
 
 func (s *JavaIdentifierListener) ExitInterfaceMethodDeclaration(ctx *parser.InterfaceMethodDeclarationContext) {
